@@ -378,7 +378,7 @@ def spectral_cases(draw, max_side):
 
 @st.composite
 def gen_cases(draw, max_side):
-    h, w, case = draw(base(1, max_side, min_side=1))
+    h, w, case = draw(base(1, max_side, min_side=2))   # a 1-wide canvas has no defined resolution (calc_res divides by n-1): outside the domain
     fn = draw(st.sampled_from(["perlin", "perlin", "generate_terrain"]))
     dtype = draw(st.sampled_from(["float32", "float64"]))
     ras = {"dtype": dtype, "data": [[0.0] * w for _ in range(h)]}
